@@ -57,10 +57,14 @@ CHECKS = {
         technique="exhaustive product (command x arity x pass/fail mask x filter configuration) executed on the real rewrite function, compared with a reference built from Redis' key-position table",
         text="For every command of the tool's write-command table, every arity from the minimum to minimum+3 key groups, every subset of keys passing, "
              "and filter none/whitelist/blacklist, HandleFilterKeyWithCommand's output is compared with a reference rewrite derived from the Redis command "
-             "reference (first/last/step). Non-key arguments are named so that they would be filtered if mistaken for keys. Every argument position is also tried as the empty string (as a key it passes a blacklist and fails a whitelist). Every command is also sent in UPPER, lOWER-first and aLtErNaTiNg spelling through the real ParseArgs.",
+             "reference (first/last/step). Non-key arguments are named so that they would be filtered if mistaken for keys. Every argument position is also tried as the empty string (as a key it passes a blacklist and fails a whitelist). Every command is also sent in UPPER, lOWER-first and aLtErNaTiNg spelling through the real ParseArgs. "
+             "Second part (incremental path): every well-formed command stream up to length 3 (thorough: 4) over ten symbols (passing, failing and mixed-key commands, FLUSHALL in two spellings, MULTI, EXEC) "
+             "x key filter none/whitelist/blacklist runs through the real parser, sender and receiver against the in-memory target; the commands the target applies must be, in order, what the rewrite function returns for each command on its own (a decision never depends on the neighbouring commands; a command that is not key-addressed is never dropped).",
         note="trusts the transcription of Redis' key positions in harness/filter/c13_test.go; commands added to the tool's table that the reference does not know are reported as notes, not judged",
         rule="case = (command, argument shape, pass mask, filter config); all distinct; states = distinct cases, transitions = calls; non-trivial = all (each is compared with the reference rewrite)",
-        parts=[dict(pkg="./redis-shake/filter", harness=["filter"], test="^TestVerif_C13$", race=True, race_test="^TestVerif_C13Race$", race_shards=1, shards=1, budget=dict(quick=60, thorough=60))],
+        parts=[dict(pkg="./redis-shake/filter", harness=["filter"], test="^TestVerif_C13$", race=True, race_test="^TestVerif_C13Race$", race_shards=1, shards=1, budget=dict(quick=60, thorough=60)),
+               # incremental path: every well-formed stream over a 10-symbol alphabet x key filter; the target must see what the rewrite function decides for each command alone
+               dict(pkg="./redis-shake/dbSync", harness=["dbsync"], test="^TestVerif_C13I$", shards=16, gomaxprocs=2, budget=dict(quick=60, thorough=600))],
     ),
     "C01": dict(
         level="model_checking",
